@@ -94,7 +94,7 @@ define_ops! {
 
 width_list!();
 
-const W_EDGE_QUICK: &[usize] = &[63, 64, 65, 127, 128, 129, 192, 256, 257];
+const W_EDGE_QUICK: &[usize] = &[63, 64, 65, 127, 128, 129, 192, 256, 257, 320, 384, 448, 512];
 const W_EDGE: &[usize] = &[60, 63, 64, 65, 120, 127, 128, 129, 191, 192, 193, 250, 255, 256, 257, 320, 384, 511, 512, 513];
 
 fn u(v: &BigUint, bits: usize) -> V {
@@ -403,6 +403,22 @@ fn pairs(r: &Runner, name: &str, bits: usize, ua: &[Limbs], ub: &[Limbs], ops: &
         }
     });
 }
+/// pairs (a, b) with b RELATED to a (a, !a, a+-1, -a, a/2, 2a, ...), a from a large unary universe
+fn related_pairs(r: &Runner, bits: usize, ops: &[Op]) {
+    let (ua, d) = pick(bits, if SWEEP { 300 } else if r.is_thorough() { 60_000 } else { 12_000 }, &salt(r.seed));
+    r.universe(&format!("{d} x related operands (a, !a, a+-1, -a, -a+-1, a/2, 2a, limb-reversed, ...)"), bits, ua.len(), |i, l| {
+        let a = vu(&ua[i]);
+        for b in related(bits, &ua[i]) {
+            let bv = vu(&b);
+            l.states(2);
+            for &op in ops {
+                exec(l, bits, op, &[a.clone(), bv.clone()]);
+                exec(l, bits, op, &[bv.clone(), a.clone()]);
+            }
+        }
+    });
+}
+
 fn unary(r: &Runner, name: &str, bits: usize, ua: &[Limbs], ops: &[Op]) {
     r.universe(name, bits, ua.len(), |i, l| {
         let args = [vu(&ua[i])];
@@ -551,6 +567,7 @@ fn c01(r: &Runner) {
         let (u, d) = bin_universe(r, bits);
         pairs(r, &format!("({d})^2"), bits, &u, &u, C01_BIN);
         unary(r, &d, bits, &u, C01_UN);
+        related_pairs(r, bits, C01_BIN);
     }
     for bits in 0..=5usize {
         let u = small_all(bits);
@@ -604,6 +621,7 @@ fn c02(r: &Runner) {
         let (u, d) = bin_universe(r, bits);
         pairs(r, &format!("({d})^2"), bits, &u, &u, C02_BIN);
         unary(r, &d, bits, &u, &[Op::inv_ring]);
+        related_pairs(r, bits, C02_BIN);
     }
     for bits in 0..=5usize {
         let u = small_all(bits);
@@ -708,6 +726,7 @@ fn c03(r: &Runner) {
     for bits in edge_widths(r) {
         let (u, d) = bin_universe(r, bits);
         pairs(r, &format!("({d})^2"), bits, &u, &u, C03_BIN);
+        related_pairs(r, bits, C03_BIN);
     }
     // derived universe
     let wsv: Vec<usize> = if SWEEP { WIDTHS.iter().copied().filter(|w| *w >= 64).collect() } else if r.is_thorough() { vec![64, 65, 127, 128, 129, 191, 192, 193, 255, 256, 257, 320, 384, 512] } else { vec![128, 129, 192, 256, 257] };
@@ -829,6 +848,7 @@ fn c10(r: &Runner) {
         triples(r, &format!("({ud}+P')^3 = {}^3", u.len()), bits, &u, &u, &u, &[Op::add_mod, Op::mul_mod, Op::pow_mod]);
         let (u2, d2) = bin_universe(r, bits);
         pairs(r, &format!("({d2})^2"), bits, &u2, &u2, &[Op::reduce_mod, Op::inv_mod]);
+        related_pairs(r, bits, &[Op::reduce_mod, Op::inv_mod]);
     }
 }
 
